@@ -45,3 +45,28 @@ NOT_APPLICABLE = {
 for _p in ["C%02d" % i for i in range(1, 21)]:
     if _p not in PROPS and _p not in NOT_APPLICABLE:
         NOT_APPLICABLE[_p] = _WIP
+
+PROPS.update({
+    "C16": {
+        "decided": "The whole mechanism: in every impl of PDUTransport::receive the argument of PDU::decode has, in its backward data slice, the usize projected out of the socket receive's result on the same buffer - if the count did not influence the decoder's input, stale bytes of an earlier datagram would complete a truncated one.",
+        "not_decided": "That the bound is used correctly (e.g. `..n` rather than `n..`) beyond being a data dependence; behaviour of transports outside this crate.",
+    },
+    "C09": {
+        "decided": "Two necessary conditions: (1) every overlap count returned by the coalescing helper `merge(v,k)` flows into the new-bytes result of Segments::merge (a dropped count over-reports progress); (2) Segments::is_complete compares the start offset (tuple field 0) of a held range.",
+        "not_decided": "Exactness of insert-and-coalesce and of gap enumeration for all sequences (an algorithmic claim over a sorted-disjoint invariant; needs a deductive verifier or exhaustive execution). In particular the pinned tree's gaps() returns an inverted/empty range when the window ends inside held data; no rule here detects that.",
+    },
+    "C12": {
+        "decided": "Sanitiser discipline (lexical paths): every return of get_native_path is root_path.join(normalize_path(..)); every path argument of a std::fs/File/OpenOptions/Utf8Path-probe call in `impl FileStore for NativeFileStore` and in the trait's process_request originates in a get_native_path result; normalize_path's accumulator is only initialised empty (or with a Prefix), extended by Normal components and shortened by pop; the daemon crate touches the filesystem by path only through FileStore (C01-W).",
+        "not_decided": "Symlinks, Windows prefixes, semantics of camino/std path APIs (trusted).",
+    },
+    "C20": {
+        "decided": "Every progress field of FaultIndication / ResumeIndication / KeepAlivePDU built in the daemon originates from get_progress() / the counter field; the receiver's counter is written only as `+= Segments::merge(..)`; the sender's counter only by max(old, seek offset + number of bytes read).",
+        "not_decided": "Numeric equality for all sizes; exactness of the merge result (C09).",
+    },
+})
+TECHNIQUE.update({
+    "C16": "backward data slice (provenance) over pre-coroutine-transform MIR of the async receive body",
+    "C09": "def-use (result-consumed) and read-dependence rules over MIR",
+    "C12": "taint/sanitiser discipline: provenance of every filesystem-sink argument over MIR",
+    "C20": "provenance of progress fields + accepted-update-idiom whitelist over MIR",
+})
